@@ -352,6 +352,7 @@ def add_programs(draw, spec, sigma_choices, min_progs=1, max_progs=3, nested_nam
                 c["imp"] = {"+".join(k): number(draw, lo, hi) for k in chosen}
             s = draw(st.sampled_from(sigma_choices + [0.0]))
             c["sigma"] = number(draw, 1e-3, 0.5) if s == "pos" else s
+            _break_ties(c, lo, hi)
             covouts.append(c)
     spec["progs"] = {"years": years, "progs": progs, "covouts": covouts}
     k = draw(st.integers(0, 3))
@@ -368,6 +369,20 @@ def add_programs(draw, spec, sigma_choices, min_progs=1, max_progs=3, nested_nam
             ins["coverage"] = cov
     spec["instr"] = ins
     return True
+
+
+def _break_ties(c, lo, hi):
+    """single-program outcomes of one effect get pairwise distinct distances from the baseline: with equal distances the
+    program that counts as 'best' is decided by the insertion order of Covout.progs, which a program book does not record"""
+    seen = []
+    for k in sorted(c["progs"]):
+        v, n = c["progs"][k], 0
+        while any(abs(abs(v - c["base"]) - d) <= 1e-9 * max(1.0, d) for d in seen) and n < 50:
+            n += 1
+            step = 0.0078125 * n * max(1.0, abs(hi - lo)) / 8
+            v = c["progs"][k] + step if c["progs"][k] + step <= hi else c["progs"][k] - step
+        c["progs"][k] = v
+        seen.append(abs(v - c["base"]))
 
 
 def rename_pops(spec, mapping):
